@@ -164,6 +164,11 @@ def gen(rng, tier):
         if i % 3 == 0:
             n = gens.lat(rng, 3, rng.choice([1, 1, 2])) if rng.random() < 0.85 else [0.0, 0.0, 0.0]
             yield {"op": "pn", "stream": "lattice", "ref": gens.lat(rng, 4, rng.choice([1, 2])), "n": n, "d": d}
+        elif i % 3 == 1 and i % 2 == 0:
+            # a normal that is unit length to the constructor's six decimals but not exactly: it is still normalised
+            u = gens.unit(rng)
+            f = 1.0 + rng.choice([-1, 1]) * 10.0 ** rng.uniform(-9, -6.1)
+            yield {"op": "pn", "stream": "float", "ref": gens.fvec(rng, gens.scale_of(rng)), "n": [x * f for x in u], "d": d}
         else:
             yield {"op": "pn", "stream": "float", "ref": gens.fvec(rng, gens.scale_of(rng)),
                    "n": gens.fvec(rng, gens.scale_of(rng)), "d": d}
@@ -222,7 +227,7 @@ def gen(rng, tier):
     for i in range(n_tilt):
         stream = "lattice" if i % 3 == 0 else "float"
         yield {"op": "tilted", "stream": stream, "seed": rng.randrange(1 << 30),
-               "variant": rng.choice(["normal"] * 6 + ["on-axis", "zero-angle", "cp-off-plane"])}
+               "variant": rng.choice(["normal"] * 6 + ["on-axis", "zero-angle", "cp-off-plane", "coarse"])}
 
     # module-level functions ------------------------------------------------------------------------
     for i in range(n_fn):
@@ -627,6 +632,8 @@ def make_tilted(spec):
     variant = spec["variant"]
     if variant == "on-axis" and spec["stream"] != "lattice":
         variant = "normal"  # only exact on the lattice (in floating point the projection does not land exactly on cp)
+    if variant == "coarse" and spec["stream"] == "lattice":
+        variant = "normal"  # axis normals round to themselves
     if spec["stream"] == "lattice":
         n = A(rng.choice(gens.AXES))
         ax = int(np.flatnonzero(n)[0])
@@ -643,7 +650,19 @@ def make_tilted(spec):
         S = gens.scale_of(rng, -3, 3)
         plane = Plane.from_point_and_normal(A(gens.fvec(rng, S)), A(gens.fvec(rng, 1.0)))
         n = np.array(plane.normal)
-        cp = plane.project_point(A(gens.fvec(rng, S)))
+        if variant == "coarse":
+            # a plane kept at a coarse direction precision (rounded(direction_decimals=k), e.g. after a round trip through
+            # a document): its normal is unit length only to k decimals.  tilted may refuse (ValueError) -- the tilt of a
+            # non-unit normal is not unit -- but a plane it does return contains both points.  Oracle only (the model's
+            # tilted is stated for the planes the default constructor accepts).  The geometry below is that of the
+            # coarse plane: its true unit direction, a point really on it.
+            try:
+                plane = plane.rounded(direction_decimals=rng.choice([1, 2, 2, 3]))
+                n = np.array(plane.normal) / np.linalg.norm(plane.normal)
+            except ValueError:
+                variant = "normal"
+        x0 = A(gens.fvec(rng, S))
+        cp = plane.project_point(x0) if variant != "coarse" else x0 - np.dot(x0 - np.array(plane.reference_point), n) * n
         a = S * 10.0 ** rng.uniform(-2, 0.5)
         d = np.cross(n, A(gens.unit(rng)))
         while np.linalg.norm(d) < 0.2:
@@ -676,12 +695,12 @@ def make_tilted(spec):
         if r[0] == "err":
             if r[1] != "ValueError":
                 out.append(("tilted/error-class", "tilted raised %s" % r[1]))
-            elif variant != "on-axis":
+            elif variant not in ("on-axis", "coarse"):
                 out.append(("tilted/returns-plane", "tilted(%r, %r) raised ValueError" % (new.tolist(), cp.tolist())))
             return out
         if variant == "on-axis":
             return out  # in floating point the projection need not land exactly on cp; nothing is promised
-        rn = basic_plane_clauses(r, out)
+        rn = basic_plane_clauses(r, out, unit_tol=2e-6 if variant == "coarse" else 1e-9)
         if rn:
             rf, m = rn
             if rf != cp.tolist():
@@ -689,13 +708,13 @@ def make_tilted(spec):
             w = gens.fsub(new, cp)
             e = math.sqrt(float(fnorm2(w)))
             res = gens.fdot(w, m)
-            if abs(res) > Fraction(1e-7 if variant == "zero-angle" else 1e-9) * Fraction(e) * 100:
+            if abs(res) > Fraction(1e-7 if variant == "zero-angle" else 1e-6 if variant == "coarse" else 1e-9) * Fraction(e) * 100:
                 out.append(("tilted/contains-new-point", "new point %r is off the tilted plane by %r (|new-cp| = %r)" % (new.tolist(), float(res), e)))
         return dedupe(out)
     kl = "tilted/%s/%s/%s" % (spec["stream"], variant, "up" if h > 0 else "down")
     ntol = 1e-6 if variant == "zero-angle" else 1e-9
-    return Case(spec, Line("c13.tilted").vec(ref0).vec(n0).vec(new).vec(cp), impl, mode="float", klass=kl, oracle=oracle,
-                compare=plane_compare(scale, ntol=ntol))
+    return Case(spec, None if variant == "coarse" else Line("c13.tilted").vec(ref0).vec(n0).vec(new).vec(cp), impl, mode="float",
+                klass=kl, oracle=oracle, compare=plane_compare(scale, ntol=ntol))
 
 
 # ---- module-level functions -----------------------------------------------------------------------
